@@ -1875,6 +1875,27 @@ def rule_P8(ctx, rid='P8'):
                   'explicitly, so a restored network silently falls back to defaults for them' \
                   % unparse(t)
     ctx.ob(rid, 'NeuralNetworkEmulator.write:sweep-skips-only-explicit', ok, f.where(lp), why)
+    # an attribute that cannot be stored must not take the checkpoint down: the handler around
+    # the store covers what h5py raises -- TypeError / ValueError for unsupported types and
+    # OSError for an attribute that does not fit (HDF5 attributes are limited to 64 KiB, which
+    # `loss_curve_` exceeds after 8192 epochs; nautilus trains with max_iter=10000)
+    tries = [t for t in ast.walk(lp) if isinstance(t, ast.Try)]
+    caught = set()
+    for t in tries:
+        for h in t.handlers:
+            if h.type is None:
+                caught.add('BaseException')
+            for x in ast.walk(h.type) if h.type is not None else ():
+                if isinstance(x, ast.Name):
+                    caught.add(x.id)
+    okh = bool(tries) and (caught & {'OSError', 'Exception', 'BaseException', 'IOError'}) and \
+        (caught & {'TypeError', 'Exception', 'BaseException'})
+    ctx.ob(rid, 'NeuralNetworkEmulator.write:sweep-tolerates-unstorable', bool(okh), f.where(lp),
+           'the sweep skips attributes h5py cannot store (%s)' % sorted(caught) if okh else
+           'the sweep only tolerates %s: an attribute that does not fit into an HDF5 attribute '
+           '(e.g. loss_curve_ of a network trained for more than 8191 epochs) raises OSError, '
+           'the checkpoint write aborts and a bound that works in memory cannot be written'
+           % (sorted(caught) or 'nothing'))
     # every swept attribute is stored under '<attr>_<i>'
     stores = [e for e in writer_table(f) if e.kind == 'attr' and '<dyn>' in e.key]
     ctx.ob(rid, 'NeuralNetworkEmulator.write:sweep-stores', bool(stores), f.where(lp),
